@@ -43,6 +43,7 @@ fn main() {
             let mut ex = Explorer::new(3000, cross);
             if tier == Tier::Thorough {
                 ex.z3.fallback_ms = 30000;
+                ex.z3.fallback_solvers = 3;
             }
             let mut results: Vec<Value> = Vec::new();
             let t0 = std::time::Instant::now();
